@@ -131,3 +131,23 @@ Theorem of_dense_ok : forall c m, rect c m ->
   /\ dense_of (of_dense c m) = m /\ major (of_dense c m) = length m /\ minor (of_dense c m) = c.
 Proof. exact SparseProofs.of_dense_ok. Qed.
 Print Assumptions of_dense_ok.
+
+From BiomV Require Import Gen.H5Prelude Gen.Hdf5Gen Proofs.GenBridgeHdf5Proofs.
+(* [translator tie] the writer regenerated from biom/table.py on this run (Gen/Hdf5Gen.v, tools/py2v_h5)
+   is the hand-written writer the theorems above speak about: every table state, generator text,
+   compress flag; date given by the caller, or taken from the clock *)
+Theorem to_hdf5_is_source : forall st genby compress date now,
+  Hdf5Gen.to_hdf5_gen st genby compress None (Some date) now = to_hdf5 st genby date.
+Proof. exact GenBridgeHdf5Proofs.to_hdf5_is_source. Qed.
+Print Assumptions to_hdf5_is_source.
+
+Theorem to_hdf5_clock_is_source : forall st genby compress now,
+  Hdf5Gen.to_hdf5_gen st genby compress None None now = to_hdf5 st genby now.
+Proof. exact GenBridgeHdf5Proofs.to_hdf5_clock_is_source. Qed.
+Print Assumptions to_hdf5_clock_is_source.
+
+(* the formatter table the writer builds (four list-valued categories, general_formatter otherwise) *)
+Theorem default_formatters_is_source : forall k col,
+  H5Prelude.fm_get GenBridgeHdf5Proofs.default_formatters k k col = format_category k col.
+Proof. exact GenBridgeHdf5Proofs.default_formatters_is_source. Qed.
+Print Assumptions default_formatters_is_source.
